@@ -781,6 +781,25 @@ def at_cases():
             "sod(result) == sod(self)",
             "implies(valid_cal(gy, gm, gd) and date_abs(self) <= cal_abs(gy, gm, gd)"
             " and cal_abs(gy, gm, gd) < date_abs(result), gd != day_of_month)"]))
+        # week plus weekday (weeks every year has: 1 .. SUM // 7)
+        out.append(at_case("%s-hms:ww-dow" % d, d, "hms", ["week_of_year", "day_of_week"],
+                           ["1 <= day_of_week and day_of_week <= 7",
+                            "1 <= week_of_year and week_of_year <= SUM // 7"], _AT_COMMON + [
+            "is_week(result) and result._day_of_week == day_of_week"
+            " and result._week_of_year == week_of_year",
+            "sod(result) == sod(self)",
+            "implies(1 <= gw and gw <= wiy(gy) and date_abs(self) <= week_abs(gy, gw, day_of_week)"
+            " and week_abs(gy, gw, day_of_week) < date_abs(result), gw != week_of_year)"]))
+        c = at_case("%s-hms:ww-dow-late" % d, d, "hms", ["week_of_year", "day_of_week"],
+                    ["1 <= day_of_week and day_of_week <= 7",
+                     "SUM // 7 < week_of_year and week_of_year <= 53"], _AT_COMMON + [
+            "is_week(result) and result._day_of_week == day_of_week"
+            " and result._week_of_year == week_of_year",
+            "sod(result) == sod(self)",
+            "implies(1 <= gw and gw <= wiy(gy) and date_abs(self) <= week_abs(gy, gw, day_of_week)"
+            " and week_abs(gy, gw, day_of_week) < date_abs(result), gw != week_of_year)"])
+        c.partial = True
+        out.append(c)
         # targets that not every month / year has (29-31, day 366): PARTIAL correctness
         # (valid result, fields as asked, earliest) - termination is the bounded stand-in's
         c = at_case("%s-hms:dom-late" % d, d, "hms", ["day_of_month"],
